@@ -2,7 +2,7 @@
    Only ExtrOcamlBasic is used: bool, option, unit, list, prod, sumbool, sumor and andb/orb are
    mapped to their OCaml counterparts; Z, positive, N, nat stay Coq datatypes. *)
 From Coq Require Import ZArith List.
-From K Require Import Model.Machine Model.Bus Model.Cost Model.Ops Spec.Price.
+From K Require Import Model.Machine Model.Bus Model.Cost Model.Addressing Model.Ops Spec.Price Spec.MemMap.
 Require Extraction.
 Require Import ExtrOcamlBasic.
 Extraction Language OCaml.
@@ -10,5 +10,6 @@ Extraction "model.ml"
   Machine.get_er Machine.set_er Machine.set_pc Machine.set_ccr Machine.set_opc
   Machine.set_regs Machine.set_bus Machine.set_ssum Machine.set_irq Machine.sget Machine.sset
   Ops.run_ops Ops.init_cpu Ops.poke Ops.mem_diff
+  Bus.bus_read MemMap.astep MemMap.awrite MemMap.aread MemMap.accessible MemMap.plain MemMap.be_bytes
   Price.price_ref Price.settings_of_area Price.on_chip_ram Price.area_of Price.dom_c19
   Z.of_nat Z.to_nat Z.add Z.mul Z.opp Z.div Z.modulo Z.eqb Z.ltb Z.leb Z.pow.
